@@ -10,7 +10,8 @@ WORKER = os.path.join(common.VERIF, "harness", "hash_worker.py")
 def run_job(args):
     base, k, terms, seed = args
     jf = os.path.join(base, "job%d.json" % k); json.dump({"terms": terms}, open(jf, "w"))
-    p = subprocess.run(["/venv/bin/python", WORKER, jf], env=dict(os.environ, PYTHONPATH=os.environ.get("VERIF_REPO", "/repo"), PYTHONHASHSEED=seed, PYTHONDONTWRITEBYTECODE="1"), capture_output=True, text=True, timeout=3000)
+    opt = ["-O"] if seed.startswith("O:") else []          # "O:<seed>": the interpreter strips assert statements
+    p = subprocess.run(["/venv/bin/python"] + opt + [WORKER, jf], env=dict(os.environ, PYTHONPATH=os.environ.get("VERIF_REPO", "/repo"), PYTHONHASHSEED=seed.split(":")[-1], PYTHONDONTWRITEBYTECODE="1"), capture_output=True, text=True, timeout=3000)
     if not os.path.exists(jf + ".out"): raise RuntimeError("hash worker failed: " + p.stderr[-600:])
     return json.load(open(jf + ".out"))
 
@@ -42,7 +43,7 @@ def body(c):
             if key not in seen_terms: seen_terms.add(key); terms.append(t)
     del seen_terms
     c.extra["universe"] = len(terms)
-    seeds = ["0", "1", "2", "random"] if not c.quick else ["0", "1", "random"]
+    seeds = ["0", "1", "2", "random", "O:3", "O:random"] if not c.quick else ["0", "1", "random", "O:2"]
     base = common.scratch("c08")
     nchunk = 5
     jobs = []
@@ -53,6 +54,7 @@ def body(c):
         results = list(ex.map(run_job, jobs))
     shutil.rmtree(base, ignore_errors=True)
     digests = {"md5": collections.defaultdict(set), "sha1": collections.defaultdict(set)}      # term index -> digests seen anywhere
+    fdig = {fl: collections.defaultdict(set) for fl in ("ordered", "default", "subclass")}       # the same with dicts replaced by another mapping type (md5)
     for (b, k, ts, sd), res in zip(jobs, results):
         part = k % nchunk
         for j, rec in enumerate(res):
@@ -69,6 +71,7 @@ def body(c):
                 c.violation({"kind": "digest_depends_on_aliasing", "of": "tuple", "value": show(terms[ti])},
                             "C08: %s hashes differently when equal tuples are one shared object instead of equal distinct objects" % show(terms[ti]), {})
             for hn in ("md5", "sha1"): digests[hn][ti].update(rec[hn])
+            for fl, ds in (rec.get("flavours") or {}).items(): fdig[fl][ti].update(ds)
     for hn in ("md5", "sha1"):
         owner = {}
         for ti, ds in digests[hn].items():
@@ -84,10 +87,25 @@ def body(c):
                     c.violation({"kind": "collision", "hash": hn, "values": sorted([show(t), show(terms[owner[dg]])])},
                                 "C08: different values share a %s digest: %s and %s" % (hn, show(t), show(terms[owner[dg]])), {})
                 owner[dg] = ti
+    FL = {"ordered": "OrderedDict", "default": "defaultdict", "subclass": "a dict subclass"}
+    for fl, per in fdig.items():
+        owner = {}
+        for ti, ds in per.items():
+            t = terms[ti]
+            if len(ds) > 1:
+                c.violation({"kind": "digest_depends_on_order_or_seed", "mapping": fl, "value": show(t)}, "C08: with every dict replaced by %s, hash(%s) takes %d different values over construction orders / PYTHONHASHSEED" % (FL[fl], show(t), len(ds)), {})
+            if ds & digests["md5"][ti]:
+                c.violation({"kind": "type_not_discriminated", "mapping": fl, "value": show(t)}, "C08: %s hashes like the same value built with %s instead of dict" % (show(t), FL[fl]), {})
+            for dg in ds:
+                if dg in owner and owner[dg] != ti:
+                    c.violation({"kind": "collision", "mapping": fl, "values": sorted([show(t), show(terms[owner[dg]])])},
+                                "C08: with every dict replaced by %s, different values share a digest: %s and %s" % (FL[fl], show(t), show(terms[owner[dg]])), {})
+                owner[dg] = ti
+        c.extra.setdefault("mapping_flavour_terms", {})[fl] = len(per)
     for t in rng.sample(terms, 3): c.sample({"term": t, "python": show(t)})
     c.exhaustive = True
     c.rule = ("every term of Hasher.tla (leaves None/True/False/0/1/0.0/1.0/-0.0/'ax'/'bx'/b'ax'/''; list, tuple, set, frozenset, dict with <= 2 elements; depth 2 over a "
-              "smaller leaf set) built from fresh objects in 3 construction orders, hashed with md5 and sha1 in interpreters with PYTHONHASHSEED %s; all digests of one "
+              "smaller leaf set) built from fresh objects in 3 construction orders, hashed with md5 and sha1 in interpreters with PYTHONHASHSEED %s ('O:' = under python -O); terms with a dict also with every dict replaced by OrderedDict / defaultdict / a dict subclass; all digests of one "
               "term must coincide and no two terms may share a digest (all pairs, by bucketing); non-trivial = terms with an unordered part" % seeds)
     c.assumptions += ["no aliased sub-objects (every occurrence is a fresh object), as in the property's universe"]
 
